@@ -205,6 +205,24 @@ def run_case(ck, desc):
             relative_permeabilities(_records(desc["sats"], desc.get("order", 0)), params)
             mob = judge_events(ck, desc)
             return mob > 0, {"mobile_values": mob}
+        if kind == "records" and len(desc["sats"]) >= 1:
+            # twin call: the same records with every residual raised by 2e-6 right afterwards - phases
+            # that sat within 1e-6 above their residual are now at or below it and must read exactly 0
+            # (nothing may be remembered from the previous call)
+            sats = np.asarray(desc["sats"], dtype=float).reshape(-1, 3).copy()
+            p9 = list(desc["params"])
+            if max(p9[3:6]) + 4e-6 < 1 and sum(p9[3:6]) < 0.94:
+                for ph in range(3):
+                    others = [q for q in range(3) if q != ph]
+                    sats[0, ph] = p9[3 + ph] + 1e-6
+                    rest = 1 - sats[0, ph]
+                    sats[0, others[0]] = rest * 0.5
+                    sats[0, others[1]] = rest - rest * 0.5
+                    relative_permeabilities(_records(sats[:1], desc.get("order", 0)), RelPermParams(*p9))
+                    q9 = list(p9)
+                    q9[3 + ph] = p9[3 + ph] + 2e-6
+                    relative_permeabilities(_records(sats[:1], desc.get("order", 0)), RelPermParams(*q9))
+                ck.count("twin_parameter_calls", 3)
         if kind == "ladder":
             ph, m = desc["phase"], desc["m"]
             s = np.zeros((m, 3))
